@@ -16,7 +16,7 @@ fn bad_out_lens(l: usize, step: usize, extra: usize) -> Vec<usize> {
 }
 
 pub fn run(ctx: &Ctx) -> Outcome {
-    let cfgs = ctx.cfgs();
+    let cfgs = ctx.cfgs_with_sweep();
     let tier = ctx.tier;
     let seed = ctx.seed;
     let reports = par_map(&cfgs, |cfg| {
@@ -264,7 +264,7 @@ pub fn run(ctx: &Ctx) -> Outcome {
         let bs = cfg.bs;
         let par = par_of(cfg);
         let key = keys(seed, cfg.key_len)[1].clone();
-        let lmax = tier.pick((par + 2) * bs + 1, (2 * par + 2) * bs + 1).max(3 * bs + 2);
+        let lmax = if cfg.sets.contains('s') { 2 * bs + 1 } else { tier.pick((par + 2) * bs + 1, (2 * par + 2) * bs + 1).max(3 * bs + 2) };
         let data = pattern(seed, 0xC13F, lmax + bs);
         let pre = dirty(lmax + bs);
         let lens: Vec<usize> = if bs <= 32 { (0..=lmax).collect() } else { byte_lengths(bs, lmax) };
@@ -376,7 +376,7 @@ pub fn run(ctx: &Ctx) -> Outcome {
     extend(&mut o, merge(r2));
     o.rule = "stateless exhaustive: (1) every CTS type x direction x call form x every length 0..bs-1 -> Err with untouched buffers; (2) every unpadded buffer-to-buffer / inout entry point (block-level, one-shot, byte stream, keystream core, CTS) x output length in {0, L-1, L+1, L+extra} -> Err, output untouched, object state and later output unchanged (twin object without the rejected call); (3) decrypt_padded / _b2b / _vec x 4 paddings x non-multiple lengths -> Err with untouched buffers; (4) new_from_slices / new_from_slice / inner_iv_slice_init x key and IV lengths {0, len-1, len+1, 2len, len/2} -> Err (IGE: two blocks accepted, one refused); (5) panic sweep under catch_unwind with overflow checks and debug assertions: every front-end x every length 0..Lmax x call form, unit-wise runs, CTS, buffered CFB resumed at every exported position, every seekable type at block positions {0,1,mid,limit-1,limit} with all five position types, byte seeks at the ends of each integer type".into();
     o.configs = cfgs.iter().map(|c| c.name.clone()).collect();
-    o.bounds = vec![("panic_sweep_max_len".into(), J::Str(tier.pick("max((PAR+2)*bs+1, 3*bs+2)", "max((2*PAR+2)*bs+1, 3*bs+2)").into()))];
+    o.bounds = vec![("all_sizes_sweep".into(), J::Str(if tier == Tier::Thorough && cfgs.iter().any(|c| c.sets.contains('s')) { "every block size 1..=255 (parallel width 2), lengths 0..=2*bs+1".into() } else { "not in this tier".to_string() })), ("panic_sweep_max_len".into(), J::Str(tier.pick("max((PAR+2)*bs+1, 3*bs+2)", "max((2*PAR+2)*bs+1, 3*bs+2)").into()))];
     o.assumptions = vec![
         "positions are non-negative (try_seek of a negative i32 trips an assert inside the cipher crate and is outside the property's domain)".into(),
         "panicking convenience wrappers documented to panic on error (apply_keystream, seek, current_pos, apply_keystream_partial, encrypt_padded_vec::<NoPadding> on a non-multiple) are not called".into(),
